@@ -60,6 +60,10 @@ def req(task, res, dynamic=False, delay_in=0, early_out=0):
     return {"k": "req", "task": task, "res": res, "dynamic": dynamic, "delay_in": delay_in, "early_out": early_out}
 
 
+def setattr_(obj, attr, value):
+    return {"k": "set", "obj": obj, "attr": attr, "value": value}
+
+
 def con(cls, id, **args):
     args.setdefault("name", id)
     return new(cls, id, **args)
@@ -225,6 +229,9 @@ def gen_source(program, header=True):
         elif d["k"] == "reqs":
             extra = ", dynamic=True" if d.get("dynamic") else ""
             lines.append(f"{_pv(d['task'])}.add_required_resources([{', '.join(_pv(r) for r in d['res'])}]{extra})")
+        elif d["k"] == "set":
+            # a public attribute assigned after construction (e.g. the weight of a built-in objective)
+            lines.append(f"{_pv(d['obj'])}.{d['attr']} = {d['value']!r}")
         elif d["k"] == "raw":
             lines.append(d["src"])
         else:
